@@ -61,6 +61,7 @@ type call struct {
 	Cancelled  bool
 	MayCancel  bool
 	Deadline   time.Duration
+	EndedCtx   bool // the call's context had ended by the time it returned
 	TwinOf     *call         // the live submission whose chain this one repeats (lockstep / timed specs)
 	StartAt    time.Duration // fake time of launch
 	RootsKnown bool          // proxy calls: the proxy's distributor has had every opportunity to learn the logs' current roots
@@ -590,8 +591,11 @@ func (w *World) launch(c *call) {
 		default:
 			scts, err = w.dist.AddChain(c.ctx, c.RawChain, false)
 		}
+		// had the call's deadline been reached when it returned? Judged by the fake clock, not by ctx.Err(): at the very
+		// instant of the deadline a returning call may or may not see its context as ended
+		ended := c.Deadline > 0 && w.s.Now()-c.StartAt >= c.Deadline
 		c.mu.Lock()
-		c.SCTs, c.Err, c.Done = scts, err, true
+		c.SCTs, c.Err, c.Done, c.EndedCtx = scts, err, true, ended
 		c.mu.Unlock()
 	})
 }
@@ -856,13 +860,19 @@ func (w *World) judge(c *call) {
 	}
 	sort.Strings(urls)
 	errText := canonErr(c.Err)
-	if c.Err != nil && (c.Cancelled || c.Deadline > 0) {
+	if c.Err == nil && c.EndedCtx {
+		// the other side of the same tie (below): the context ended while the call was returning a complete set. Whether
+		// the code under test still says nil or already reports the context is decided among goroutines woken at that
+		// one instant (self-test: C17lock seed 5126, GOMAXPROCS 1 vs 16); both are right, the set is judged as usual.
+		s.Logf("%s done (its context had ended: nil or an error, not told apart) scts=%v", c.Party, urls)
+	} else if c.Err != nil && (c.Cancelled || c.Deadline > 0) {
 		// after the caller's context ended, GetSCTs' select between ctx.Done and the group events is a
 		// genuine tie inside the code under test: which groups it still records as failed is not
 		// reproducible (and not judged), so it must not reach the event log
 		errText = "error after the caller's context ended"
+		_ = errText
 		// (how many more logs its racers still reached before they noticed is part of the same tie)
-		s.Logf("%s done err=%q scts=%v", c.Party, errText, urls)
+		s.Logf("%s done (its context had ended: nil or an error, not told apart) scts=%v", c.Party, urls)
 	} else {
 		s.Logf("%s done err=%q scts=%v contacted=%d", c.Party, errText, urls, len(c.Contacted))
 	}
